@@ -1,9 +1,11 @@
 from driver import Unit
 
 
-def c01(elem, name, tag, caps, quick=True):
+def c01(elem, name, tag, caps, quick=True, nx=False):
+    # nx: once more without exception support (-fno-exceptions), which selects the other branch of tetl's uninitialized_copy/move/fill
+    fl = ["asan-cc", "asannx-cc"] if nx else ["asan-cc"]
     return Unit(f"C03_vec_{name}_{tag}", "harness/C01_vector.cpp", defs=[f"-DVF_ELEM={elem}", f"-DVF_CAPS={caps}"],
-                flavours={"quick": ["asan-cc"] if quick else [], "thorough": ["asan-cc"]}, shards={"quick": 4, "thorough": 16})
+                flavours={"quick": fl if quick else [], "thorough": fl}, shards={"quick": 4, "thorough": 16})
 
 
 P = dict(
@@ -26,7 +28,7 @@ P = dict(
         Unit("C03_owners", "harness/C03_owners.cpp", flavours={"quick": ["asan-cc"], "thorough": ["asan-cc", "asan-nocc"]}, shards={"quick": 12, "thorough": 16}),
         Unit("C03_sset_tracked", "harness/C09_sets.cpp", defs=["-DVF_UNIT=2", "-DVF_PART=0", "-g1"], flavours={"quick": ["asan-cc"], "thorough": ["asan-cc"]}, shards={"quick": 4, "thorough": 8}, only_kinds={"lifetime", "crash", "hang"}),
         Unit("C03_fset_tracked", "harness/C09_sets.cpp", defs=["-DVF_UNIT=8", "-DVF_PART=0", "-g1"], flavours={"quick": ["asan-cc"], "thorough": ["asan-cc"]}, shards={"quick": 4, "thorough": 8}, only_kinds={"lifetime", "crash", "hang"}),
-        c01(2, "tcm", "a", "0,1,2,3"), c01(2, "tcm", "b", "16,255,256"), c01(3, "tmo", "a", "0,1,2,3"), c01(3, "tmo", "b", "4,16,256", quick=False),
+        c01(2, "tcm", "a", "0,1,2,3", nx=True), c01(2, "tcm", "b", "16,255,256"), c01(3, "tmo", "a", "0,1,2,3", nx=True), c01(3, "tmo", "b", "4,16,256", quick=False),
     ],
     floor={"quick": 50000, "thorough": 500000},
     assumptions=["every contained object of interest is of the instrumented type", "gcc 12 ASan/UBSan"],
